@@ -117,10 +117,14 @@ class Report:
             "wall_s": round(wall, 2),
             "violations": len(real),
         }
-        os.makedirs(os.path.join(VERIF, "evidence"), exist_ok=True)
-        with open(os.path.join(VERIF, "evidence", "%s.json" % self.pid), "w") as fh:
+        # VERIF_OUT redirects evidence and reports (used by selftest/run.py so that a run against a seeded
+        # variant does not overwrite the evidence of the real tree)
+        out = os.environ.get("VERIF_OUT")
+        edir = os.path.join(out, "evidence") if out else os.path.join(VERIF, "evidence")
+        os.makedirs(edir, exist_ok=True)
+        with open(os.path.join(edir, "%s.json" % self.pid), "w") as fh:
             json.dump(ev, fh, indent=1)
-        rdir = os.path.join(VERIF, ".cache", "reports")
+        rdir = os.path.join(out, "reports") if out else os.path.join(VERIF, ".cache", "reports")
         os.makedirs(rdir, exist_ok=True)
         rpath = os.path.join(rdir, "%s-%s.json" % (self.pid, self.tier))
         with open(rpath, "w") as fh:
